@@ -62,3 +62,16 @@ def flaky_file(path):
     f = File(path)
     f.write("task-output")
     return f
+
+
+@task()
+def flaky_files(path):
+    """Like flaky_file, but the File sits inside a container (validity must be checked through the nesting)."""
+    from redun import File
+
+    CALLS.append(("flaky_files", path))
+    if MODE["fail"]:
+        raise RuntimeError(f"flaky_file {path!r}")
+    f = File(path)
+    f.write("task-output")
+    return {"report": [f], "n": 1}
